@@ -2390,3 +2390,146 @@ func (p *Prog) staleReader() []Ob {
 	}
 	return obs
 }
+
+// ---------------------------------------------------------------------------
+// R36d SIBLING-OUTCOMES: the head's index object and a closed segment's index object implement one
+// interface; callers compare what they return with sentinels by identity. For every method of that
+// interface both siblings can return exactly the same set of module sentinels.
+func (p *Prog) siblingOutcomes() []Ob {
+	var obs []Ob
+	ea := p.ErrAtomsCached()
+	r := p.R
+	byName := func(n *types.Named) map[string]*ssa.Function {
+		out := map[string]*ssa.Function{}
+		for _, fn := range p.Funcs {
+			if srcFunc(fn) && fn.Parent() == nil && recvNamed(fn) == n && errResultIndex(fn) >= 0 {
+				out[fn.Name()] = fn
+			}
+		}
+		return out
+	}
+	hw, rd := byName(r.HeadIndex), byName(r.ReaderIndex)
+	propsOf := map[string][]string{"Time": {"C10"}, "Keys": {"C09"}, "Get": {"C04"}, "Consume": {"C03"}}
+	for _, nm := range sortedKeys(hw) {
+		a, b := hw[nm], rd[nm]
+		if b == nil {
+			continue
+		}
+		set := func(fn *ssa.Function) []string {
+			var out []string
+			for at := range ea.ret[fn][errResultIndex(fn)] {
+				if strings.HasPrefix(at, "G:") {
+					out = append(out, shortAtom(at))
+				}
+			}
+			sort.Strings(out)
+			return out
+		}
+		sa, sb := set(a), set(b)
+		props := propsOf[nm]
+		if props == nil {
+			props = []string{"C03", "C04"}
+		}
+		ob := Ob{Rule: "R36", Inst: "sibling-outcomes:" + nm, Props: props, Pos: p.posStr(a.Pos()), Func: funcLabel(a), Nontrivial: true}
+		if strings.Join(sa, ",") == strings.Join(sb, ",") {
+			ob.Status, ob.Msg = Discharged, fmt.Sprintf("both index objects can return the same sentinels from %s: %s", nm, strings.Join(sa, ", "))
+		} else {
+			ob.Status, ob.Msg = Violated, fmt.Sprintf("the head's index object returns {%s} from %s, a closed segment's {%s}: a caller that compares by identity takes different branches for the same situation depending on which object answers", strings.Join(sa, ", "), nm, strings.Join(sb, ", "))
+		}
+		obs = append(obs, ob)
+	}
+	return obs
+}
+
+// R9h HEADER-FLAGS-EXACT (C13, C04, C11): the index file header records which columns the items have;
+// it is accepted only if each recorded column flag equals the requested option, in both directions
+// (the item stride comes from the options, so an index with more columns than asked for is as
+// unreadable as one with fewer).
+func (p *Prog) headerFlagsExact() []Ob {
+	var obs []Ob
+	r := p.R
+	for _, fn := range p.Funcs {
+		if !srcFunc(fn) || funcPkgPath(fn) != pkgIndex || fn.Parent() != nil {
+			continue
+		}
+		// the header parser: takes Params by value, tests bits of a byte slice
+		var pr *ssa.Parameter
+		for _, q := range fn.Params {
+			if namedOf(q.Type()) == r.Params {
+				pr = q
+			}
+		}
+		if pr == nil {
+			continue
+		}
+		found := map[string]string{} // field -> "exact" / "one-sided"
+		for _, b := range fn.Blocks {
+			iff, ok := terminator(b).(*ssa.If)
+			if !ok {
+				continue
+			}
+			var fieldOf func(v ssa.Value) string
+			fieldOf = func(v ssa.Value) string {
+				if f, base := loadedField(canon(v)); f != nil {
+					if canon(base) == ssa.Value(pr) {
+						return f.Name()
+					}
+					if al, ok := base.(*ssa.Alloc); ok {
+						if sts := allocStores(al); len(sts) == 1 && sts[0].Val == ssa.Value(pr) {
+							return f.Name()
+						}
+					}
+				}
+				if fl, ok := v.(*ssa.Field); ok && fl.X == ssa.Value(pr) {
+					if f := fieldVarOfField(fl); f != nil {
+						return f.Name()
+					}
+				}
+				return ""
+			}
+			isMaskTest := func(v ssa.Value) bool {
+				bo, ok := v.(*ssa.BinOp)
+				if !ok || (bo.Op != token.EQL && bo.Op != token.NEQ) {
+					return false
+				}
+				for _, s := range []ssa.Value{bo.X, bo.Y} {
+					if m, ok := s.(*ssa.BinOp); ok && m.Op == token.AND {
+						return true
+					}
+				}
+				return false
+			}
+			if bo, ok := iff.Cond.(*ssa.BinOp); ok && (bo.Op == token.NEQ || bo.Op == token.EQL) {
+				for _, pair := range [][2]ssa.Value{{bo.X, bo.Y}, {bo.Y, bo.X}} {
+					if f := fieldOf(pair[0]); f != "" && isMaskTest(pair[1]) {
+						found[f] = "exact"
+					}
+				}
+			}
+			// a branch on the option alone that leads to a mask test is the one-sided form
+			if f := fieldOf(iff.Cond); f != "" {
+				for _, s := range b.Succs {
+					if i2, ok := terminator(s).(*ssa.If); ok && isMaskTest(i2.Cond) && found[f] == "" {
+						found[f] = "one-sided"
+					}
+				}
+			}
+		}
+		if len(found) == 0 {
+			continue
+		}
+		for _, f := range sortedKeys(found) {
+			ob := Ob{Rule: "R9", Inst: "h:header-flag-exact:" + f, Props: []string{"C13", "C04", "C11"}, Pos: p.posStr(fn.Pos()), Func: funcLabel(fn), Nontrivial: true}
+			if found[f] == "exact" {
+				ob.Status, ob.Msg = Discharged, "the recorded " + f + " flag is compared with the option for (in)equality: a mismatch in either direction is rejected"
+			} else {
+				ob.Status, ob.Msg = Violated, "the recorded " + f + " flag is only tested where the option is set: an index that has the column although the option is off is accepted and then read with the wrong item stride"
+			}
+			obs = append(obs, ob)
+		}
+	}
+	if len(obs) == 0 {
+		obs = append(obs, Ob{Rule: "R9", Inst: "h:header-flag-exact", Props: []string{"C13", "C04", "C11"}, Pos: "-", Status: Undecided, Msg: "no comparison of a recorded column flag with index.Params found in the index package"})
+	}
+	return obs
+}
